@@ -4,11 +4,16 @@
 //!
 //! usage: replay_lu <scenarios.ndjson> <trace.ndjson> [--mutate <k>]
 //!
-//! Numbers are logged as exact rationals [num, den] when they are dyadic with den <= 2^16 and |num| < 2^30
-//! (then the float IS that rational), else as the sentinel [0, 0]; complex numbers as [[num,den],[num,den]].
-//! In addition the harness logs booleans it computes in f64 from the exact rationals carried by the scenario:
-//! "close" (solution within TOL_FACTOR*n*eps*max(1,|x|_inf) of the scenario's exact rational, echoed as "xe_used") and
-//! "lu_close" (same for the factor entries; Level-B comparison only).
+//! Input: the matrix handed to the code is sc.A[i][j] * 2^(sc.rs[i] + sc.cs[j]) (complex: A + i AI likewise), the
+//! right-hand sides sc.bs[k][i] * 2^sc.rs[i] (rs / cs absent = zeros); powers of two are exact.
+//!
+//! Every float the code returns is logged exactly as [m, e] with value = m * 2^e, m odd ([0, 0] for zero); when
+//! |m| >= 2^30 or the value is not finite the sentinel [0, 1] is logged; complex numbers as [[m,e],[m,e]].
+//! Expected numbers carried by the scenario are triples [num, den, e] = (num/den) * 2^e.
+//! In addition the harness logs booleans it computes in f64 from those expected numbers:
+//! "close" (every solution component, divided by its 2^e, within TOL_FACTOR*n*eps*max(1,|x|_inf) of num/den; the
+//! expected numbers are echoed as "xe_used") and "lu_close" (same for the factor entries; Level-B comparison only),
+//! and "mult_ok": every stored multiplier is bounded (real: |l| <= 1; complex: re^2 + im^2 <= 2, up to 1e-12).
 //!
 //! Trace lines:
 //!  {"sid","act":"dec","storage":"full|banded","cls":"ok|singular|nonsquare|pivot_size|other|panic","mult_ok":bool,
@@ -19,7 +24,7 @@
 //! --mutate k (self-test of the binding: deliberately falsify the *recorded* outcome)
 //!   1: report class "ok" where the code said "singular"      2: report a wrong first solution component
 //!   3: report mult_ok = false                                 4: report a_same = false
-//!   5: report "ok" for every shape / pivot-length error       6: report a wrong pivot index (Level-B only -> DRIFT)
+//!   5: report "ok" for every shape / pivot-length error       6: report a wrong pivot index (pivot_max; DRIFT on ties)
 use ivp::error::{Error, LinearAlgebraError};
 use ivp::matrix::{lin_solve, lin_solve_complex, lu_decomp, lu_decomp_complex, Matrix};
 use ivp_verif_harness::util::{catch, silence_panics};
@@ -29,18 +34,26 @@ use std::io::{BufRead, BufReader, BufWriter, Write};
 const IP_SENTINEL: usize = 7777;
 const TOL_FACTOR: f64 = 16.0;
 
+/// v = m * 2^e exactly, m odd
 fn pair(v: f64) -> [i64; 2] {
-    if !v.is_finite() { return [0, 0]; }
-    let mut scale = 1.0f64;
-    for e in 0..=16 {
-        let s = v * scale;
-        if s.fract() == 0.0 && s.abs() < 1073741824.0 { return [s as i64, 1i64 << e]; }
-        scale *= 2.0;
-    }
-    [0, 0]
+    if v == 0.0 { return [0, 0]; }
+    if !v.is_finite() { return [0, 1]; }
+    let bits = v.to_bits();
+    let biased = ((bits >> 52) & 0x7ff) as i64;
+    let frac = (bits & ((1u64 << 52) - 1)) as i64;
+    let (mut m, mut e) = if biased == 0 { (frac, -1074) } else { (frac | (1i64 << 52), biased - 1075) };
+    while m & 1 == 0 { m >>= 1; e += 1; }
+    if m >= 1073741824 { return [0, 1]; }
+    [if v < 0.0 { -m } else { m }, e]
 }
 
+fn p2(e: i64) -> f64 { 2.0f64.powi(e as i32) }
+fn exp_of(v: &Value) -> i64 { v.get(2).and_then(|x| x.as_i64()).unwrap_or(0) }
+/// num/den of an expected triple (the value without its power of two)
 fn rat(v: &Value) -> f64 { v[0].as_i64().unwrap() as f64 / v[1].as_i64().unwrap() as f64 }
+fn scale_vec(sc: &Value, key: &str, n: usize) -> Vec<i64> {
+    (0..n).map(|i| sc[key].get(i).and_then(|x| x.as_i64()).unwrap_or(0)).collect()
+}
 
 fn class_of(r: &Result<Result<(), Error>, String>) -> &'static str {
     match r {
@@ -53,9 +66,9 @@ fn class_of(r: &Result<Result<(), Error>, String>) -> &'static str {
     }
 }
 
-fn build(n: usize, a: &Value, storage: &str) -> Matrix {
+fn build(n: usize, a: &Value, rs: &[i64], cs: &[i64], storage: &str) -> Matrix {
     let mut m = if storage == "full" { Matrix::zeros(n, n) } else { Matrix::banded(n, n.saturating_sub(1), n.saturating_sub(1)) };
-    for i in 0..n { for j in 0..n { m[(i, j)] = a[i][j].as_i64().unwrap() as f64; } }
+    for i in 0..n { for j in 0..n { m[(i, j)] = a[i][j].as_i64().unwrap() as f64 * p2(rs[i] + cs[j]); } }
     m
 }
 
@@ -68,7 +81,8 @@ struct Ctx { w: BufWriter<std::fs::File>, mutate: u32, worst: f64 }
 fn real_case(cx: &mut Ctx, sid: i64, rec: &Value, storage: &str, first: bool) {
     let sc = &rec["sc"];
     let n = sc["n"].as_u64().unwrap() as usize;
-    let mut a = build(n, &sc["A"], storage);
+    let (rs, cs) = (scale_vec(sc, "rs", n), scale_vec(sc, "cs", n));
+    let mut a = build(n, &sc["A"], &rs, &cs, storage);
     let mut ip = vec![IP_SENTINEL; n];
     let r = catch(|| lu_decomp(&mut a, &mut ip));
     let mut cls = class_of(&r);
@@ -79,7 +93,8 @@ fn real_case(cx: &mut Ctx, sid: i64, rec: &Value, storage: &str, first: bool) {
     let mut lu_close = true;
     for i in 0..n { for j in 0..n {
         let e = rat(&elu[i][j]);
-        if !((a[(i, j)] - e).abs() <= tol(n, e.abs())) { lu_close = false; }
+        let un = p2(-exp_of(&elu[i][j]));
+        if !((a[(i, j)] * un - e).abs() <= tol(n, e.abs())) { lu_close = false; }
     } }
     let mut ipv = ip_out(&ip);
     match cx.mutate {
@@ -99,20 +114,21 @@ fn real_case(cx: &mut Ctx, sid: i64, rec: &Value, storage: &str, first: bool) {
     let xe = &rec["expect"]["xe"];
     let (mut xs, mut close, mut xe_used, mut panic) = (vec![], vec![], vec![], false);
     for (k, bv) in sc["bs"].as_array().unwrap().iter().enumerate() {
-        let mut b: Vec<f64> = bv.as_array().unwrap().iter().map(|v| v.as_i64().unwrap() as f64).collect();
+        let mut b: Vec<f64> = bv.as_array().unwrap().iter().enumerate().map(|(i, v)| v.as_i64().unwrap() as f64 * p2(rs[i])).collect();
         if catch(|| lin_solve(&a, &mut b, &ip)).is_err() { panic = true; }
         let mut c = false;
         let mut used = json!([]);
         if let Some(e) = xe.get(k) {
             let ev: Vec<f64> = e.as_array().unwrap().iter().map(rat).collect();
+            let un: Vec<f64> = e.as_array().unwrap().iter().map(|t| p2(-exp_of(t))).collect();
             let scale = ev.iter().fold(0.0f64, |m, v| m.max(v.abs()));
-            let worst = b.iter().zip(&ev).fold(0.0f64, |m, (x, e)| m.max((x - e).abs()));
+            let worst = (0..n).fold(0.0f64, |m, j| { let d = (b[j] * un[j] - ev[j]).abs(); if d.is_nan() { f64::INFINITY } else { m.max(d) } });
             c = worst <= tol(n, scale);
             cx.worst = cx.worst.max(worst / (n as f64 * f64::EPSILON * scale.max(1.0)));
             used = e.clone();
         }
         let mut xp: Vec<[i64; 2]> = b.iter().map(|v| pair(*v)).collect();
-        if cx.mutate == 2 { if xp[0][1] != 0 { xp[0][0] += xp[0][1]; } c = true; used = json!(xp.clone()); }
+        if cx.mutate == 2 { xp[0] = if xp[0][0] == 0 { [1, 0] } else { [xp[0][0] + 2, xp[0][1]] }; c = true; used = json!(xp.clone()); }
         xs.push(xp); close.push(c); xe_used.push(used);
     }
     let mut a_same = same_bits(&a_before, &a.data);
@@ -127,23 +143,25 @@ fn cpair(re: f64, im: f64) -> [[i64; 2]; 2] { [pair(re), pair(im)] }
 fn complex_case(cx: &mut Ctx, sid: i64, rec: &Value, storage: &str, first: bool) {
     let sc = &rec["sc"];
     let n = sc["n"].as_u64().unwrap() as usize;
-    let mut ar = build(n, &sc["A"], storage);
-    let mut ai = build(n, &sc["AI"], storage);
+    let (rs, cs) = (scale_vec(sc, "rs", n), scale_vec(sc, "cs", n));
+    let mut ar = build(n, &sc["A"], &rs, &cs, storage);
+    let mut ai = build(n, &sc["AI"], &rs, &cs, storage);
     let mut ip = vec![IP_SENTINEL; n];
     let r = catch(|| lu_decomp_complex(&mut ar, &mut ai, &mut ip));
     let mut cls = class_of(&r);
     let mut mult_ok = true;
     for i in 0..n { for k in 0..i {
         let (x, y) = (ar[(i, k)], ai[(i, k)]);
-        if !(x * x + y * y <= 1.0) { mult_ok = false; }
+        if !(x * x + y * y <= 2.0 * (1.0 + 1e-12)) { mult_ok = false; }
     } }
     let lu: Vec<Vec<[[i64; 2]; 2]>> = (0..n).map(|i| (0..n).map(|j| cpair(ar[(i, j)], ai[(i, j)])).collect()).collect();
     let elu = &rec["expect"]["lu"];
     let mut lu_close = true;
     for i in 0..n { for j in 0..n {
         let (er, ei) = (rat(&elu[i][j][0]), rat(&elu[i][j][1]));
+        let un = p2(-exp_of(&elu[i][j][0]));
         let t = tol(n, er.abs().max(ei.abs()));
-        if !((ar[(i, j)] - er).abs() <= t && (ai[(i, j)] - ei).abs() <= t) { lu_close = false; }
+        if !((ar[(i, j)] * un - er).abs() <= t && (ai[(i, j)] * un - ei).abs() <= t) { lu_close = false; }
     } }
     let mut ipv = ip_out(&ip);
     match cx.mutate {
@@ -162,22 +180,26 @@ fn complex_case(cx: &mut Ctx, sid: i64, rec: &Value, storage: &str, first: bool)
     let xe = &rec["expect"]["xe"];
     let (mut xs, mut close, mut xe_used, mut panic) = (vec![], vec![], vec![], false);
     for (k, bv) in sc["bs"].as_array().unwrap().iter().enumerate() {
-        let mut br: Vec<f64> = bv.as_array().unwrap().iter().map(|v| v[0].as_i64().unwrap() as f64).collect();
-        let mut bi: Vec<f64> = bv.as_array().unwrap().iter().map(|v| v[1].as_i64().unwrap() as f64).collect();
+        let mut br: Vec<f64> = bv.as_array().unwrap().iter().enumerate().map(|(i, v)| v[0].as_i64().unwrap() as f64 * p2(rs[i])).collect();
+        let mut bi: Vec<f64> = bv.as_array().unwrap().iter().enumerate().map(|(i, v)| v[1].as_i64().unwrap() as f64 * p2(rs[i])).collect();
         if catch(|| lin_solve_complex(&ar, &ai, &mut br, &mut bi, &ip)).is_err() { panic = true; }
         let mut c = false;
         let mut used = json!([]);
         if let Some(e) = xe.get(k) {
             let ev: Vec<(f64, f64)> = e.as_array().unwrap().iter().map(|z| (rat(&z[0]), rat(&z[1]))).collect();
+            let un: Vec<f64> = e.as_array().unwrap().iter().map(|z| p2(-exp_of(&z[0]))).collect();
             let scale = ev.iter().fold(0.0f64, |m, v| m.max(v.0.abs()).max(v.1.abs()));
             let mut worst = 0.0f64;
-            for i in 0..n { worst = worst.max((br[i] - ev[i].0).abs()).max((bi[i] - ev[i].1).abs()); }
+            for i in 0..n {
+                let (dr, di) = ((br[i] * un[i] - ev[i].0).abs(), (bi[i] * un[i] - ev[i].1).abs());
+                worst = if dr.is_nan() || di.is_nan() { f64::INFINITY } else { worst.max(dr).max(di) };
+            }
             c = worst <= tol(n, scale);
             cx.worst = cx.worst.max(worst / (n as f64 * f64::EPSILON * scale.max(1.0)));
             used = e.clone();
         }
         let mut xp: Vec<[[i64; 2]; 2]> = (0..n).map(|i| cpair(br[i], bi[i])).collect();
-        if cx.mutate == 2 { if xp[0][0][1] != 0 { xp[0][0][0] += xp[0][0][1]; } c = true; used = json!(xp.clone()); }
+        if cx.mutate == 2 { xp[0][0] = if xp[0][0][0] == 0 { [1, 0] } else { [xp[0][0][0] + 2, xp[0][0][1]] }; c = true; used = json!(xp.clone()); }
         xs.push(xp); close.push(c); xe_used.push(used);
     }
     let mut a_same = same_bits(&ar_before, &ar.data) && same_bits(&ai_before, &ai.data);
